@@ -80,12 +80,23 @@ def rule_wfloat(bodies):
 
 
 def rule_literal_path(prog, roles, em):
+    first = _rule_literal_path(prog, roles, em, roles.token_bodies())
+    if not any(o.status == 'violated' for o in first):
+        return first
+    second = _rule_literal_path(prog, roles, em, roles.token_bodies(views=True))
+    if not any(o.status == 'violated' for o in second):
+        for o in second:
+            o.what += ' [read with combinator closures inlined]'
+        return second
+    return first
+
+
+def _rule_literal_path(prog, roles, em, tbodies):
     """literal text -> from_str -> Token::Number -> Literal::Number -> Value::Number by moves only"""
     obs = []
     # (1) scanner
     scanners = []
-    for bid in sorted(roles.reach):
-        b = prog.by_id[bid]
+    for b in tbodies:
         fs = [c for c in b.live_calls if (c.rdef or '').endswith('<rust_decimal::Decimal as std::str::FromStr>::from_str')]
         if fs:
             scanners.append((b, fs))
